@@ -486,6 +486,9 @@ func vfCacheProperty(ev *vfEvidence, profile string) func(t *rapid.T) {
 		if out.resynced > 0 {
 			ev.Excluded("continued_after_other=C03-accounting(resynced)")
 		}
+		if out.sm.st.realigned > 0 {
+			ev.Excluded("continued_after_other=reference-fifo-realigned-with-write-buffer")
+		}
 		nt, cl := vfNonTrivial(profile, &out.sm.st)
 		ev.Case(nt, vfCaseHash(c), cl...)
 		ev.Sample(nt, func() any {
